@@ -4,6 +4,7 @@ every discrepancy class that is not yet listed to known_findings.json, each with
 usage: PYTHONPATH=/repo:/verif python tools/register_findings.py C02 <n_ir> <n_other> seed [seed...]"""
 import importlib
 import json
+import os
 import sys
 
 sys.path.insert(0, "/verif")
@@ -19,7 +20,7 @@ def main():
     have = {e["cls"] for e in data["findings"]}
     new = {}
     for s in seeds:
-        ctx = Ctx(prop, "quick", s)
+        ctx = Ctx(prop, os.environ.get("REGISTER_TIER", "quick"), s)
         res = mod.collect(ctx, *args)
         items = res[1]
         for cls, det, inp in items:
